@@ -38,7 +38,7 @@ PROBES = {
             'circuit-closed-under-attached-streams', 'segmented-delivery'],
     'C09': ['attacher-returns-built', 'attacher-returns-unbuilt', 'attacher-returns-unknown', 'attacher-returns-noncircuit',
             'attacher-returns-none', 'attacher-returns-do-not-attach', 'attacher-deferred', 'attacher-coroutine',
-            'exit-target', 'second-attacher-refused', 'attacher-removed', 'via-circuit-connect', 'via-circuit-concurrent>=2',
+            'exit-target', 'second-attacher-refused', 'attacher-removed', 'priority-attacher', 'via-circuit-connect', 'via-circuit-concurrent>=2',
             'unrelated-stream-between', 'segmented-delivery'],
 }
 
